@@ -39,6 +39,11 @@ CLAIMS = {
    design_ref="DESIGN.md section 5 C14, section 8",
    note=COMMON_NOTE + "The notice header (From/To/Subject, date) is checked only for containing the paragraphs and the original message; daemon-level ordering (messdone) is C03's.",
    technique="Coq proof (left-to-right characterisation of the in-place sanitising loop; paragraph-start counter invariant; rank function) + extracted-model differential tie"),
+ "C01": dict(category="proof",
+   text="Theorems over every message, envelope and fault plan: at every prefix of qmail-queue's file-system event sequence (= every instant the process can be killed, time out, or the machine stop) and every crash image (files cut anywhere between fsynced prefix and length), a todo entry implies mess = Received line ++ message and todo = header ++ well-formed envelope, both durable; exit 0 implies committed; a failure exit implies the message was never visible at any prefix; intermediate patterns are S1-S4 or a pid file; exit codes 0/54/91/11 by the envelope grammar (1002-byte addresses accepted, 1003 refused) and 53/63-66 for failing calls. The model is tied on every run to the real qmail-queue under the interposer: event traces for every single failing call of the observed sequence, read errors, signals after chosen calls and kills before each call are compared with the model, and the extracted oracle is evaluated on every prefix of each OBSERVED trace (fsync positions included) and against the queue on disk.",
+   design_ref="DESIGN.md section 5 C01, section 8",
+   note=COMMON_NOTE + "Assumes conf-qmail's file-system model (synchronous directory operations, data durable up to the last fsync, truncation durable); unsynced-data loss is covered by the theorem and by the oracle on observed fsync positions, not by physically losing data. Short writes and double faults are not injected. The Received: line is opaque.",
+   technique="Coq proof (case analysis over fault plans, invariant at every event prefix, crash-image relation) + trace refinement of the real qmail-queue under an LD_PRELOAD interposer"),
 }
 
 REASON_PENDING = "not yet claimed: model/correspondence for this property is still being built (DESIGN.md section 7); no check is registered for it"
